@@ -31,6 +31,9 @@ def check_and_replay(res, name, K, own=None, depth_all=4, walks=2000, walk_len=3
 
 def trace_validate(res, name, n_coroutines, n_traces, n_calls):
     """Pipeline B: random scripts for n coroutines; random start/kill/process schedules on the real processor."""
+    from .. import replay as _rp
+    if _rp.REPLAY is not None:
+        return
     import copy
     import os
     import random
